@@ -47,6 +47,11 @@ var rules []*Rule
 
 func register(prop, id string, floor int, decides string, run func(r *R)) *Rule {
 	ru := &Rule{Property: prop, ID: id, Floor: floor, Decides: decides, Run: run}
+	for _, o := range rules {
+		if o.Property == prop && o.ID == id {
+			panic("rule " + prop + "." + id + " registered twice")
+		}
+	}
 	rules = append(rules, ru)
 	return ru
 }
